@@ -28,7 +28,16 @@ def rnd_cap(r, kind, asn):
     if kind == 'as4':
         return {'k': 'as4', 'asn': asn}
     if kind == 'addpath':
-        return {'k': 'addpath', 'l': [list(r.choice(KNOWN_FAM)) + [r.choice([1, 2, 3])] for _ in range(r.choice([0, 1, 2, 3]))]}
+        def tup():
+            # mostly entries the decoder has a name for; also (in range, well-formed) entries it does not know - another
+            # family, a Send/Receive value outside 1..3 - which must not disturb the known ones around them
+            x = r.random()
+            if x < 0.7:
+                return list(r.choice(KNOWN_FAM)) + [r.choice([1, 2, 3])]
+            if x < 0.82:
+                return list(r.choice(KNOWN_FAM)) + [r.choice([0, 4, 255])]
+            return [r.choice([0, 3, 99, 65535]), r.choice([0, 3, 99, 255]), r.choice([1, 2, 3])]
+        return {'k': 'addpath', 'l': [tup() for _ in range(r.choice([0, 1, 2, 3, 4]))]}
     if kind == 'llgr':
         return {'k': 'llgr', 'l': [[r.getrandbits(16), r.getrandbits(8), r.getrandbits(8), r.choice([0, 1, 2 ** 24 - 1, r.getrandbits(24)])]
                                     for _ in range(r.choice([0, 1, 2]))]}
@@ -217,9 +226,11 @@ def run(seed, tier, driver):
 
     # ---- NOTIFICATION / KEEPALIVE / ROUTE-REFRESH: exhaustive code pairs, data lengths, AFI/SAFI table x both types
     reqs, impls, descs = [], [], []
+    # data of every length up to what a 4096-octet message carries (21 + 4075), at the boundaries for a few code pairs
+    long_data = {(1, 2): [255, 256, 4074, 4075], (2, 7): [257, 4075], (6, 2): [1000, 4074, 4075], (3, 1): [4075]}
     for e in list(range(0, 9)) + [255, 256]:
         for s in list(range(0, 13)) + [255, 256]:
-            for data in (b'', b'\x00', b'\x01\x02', bytes(range(40))):
+            for data in [b'', b'\x00', b'\x01\x02', bytes(range(40))] + [bytes((i * 7 + n) & 255 for i in range(n)) for n in long_data.get((e, s), [])]:
                 reqs.append({'op': 'notif.construct', 'error': e, 'sub': s, 'data': data.hex()})
                 io = I.notif_construct(e, s, data)
                 impls.append(io)
